@@ -129,6 +129,8 @@ def check(tier: str) -> Result:
     from .common import borrow
     TRUSTS_MASK = ["BinPack", "FlatPack", "JobShop", "Sudoku", "GraphColoring"]   # CO environments whose step consults the stored mask
     n_b = borrow(res, "c04", {"C04.R1": "C06.R5", "C04.R3a": "C06.R5", "C04.R7": "C06.R5", "C04.R6": "C06.R5"}, envs=TRUSTS_MASK)
+    # ---- R6: Connector / MMST routes never share a cell already at reset: starts and targets are drawn without replacement
+    n_gen = borrow(res, "c10", {"C10.R2": "C06.R6"}, envs=["connector", "mmst"])
     res.analysed = {"environments": ["Knapsack", "CVRP", "TSP", "Sudoku", "GraphColoring"], "mask_soundness_obligations": n_b, "obligations": len(res.obligations)}
     res.assumptions = ["lax.cond semantics; the induction over steps uses C05.R2 (state untouched on invalid actions)",
                        "constraints of BinPack, FlatPack, JobShop, MultiCVRP, Connector, MMST are not decided (runtime geometry / scheduling)"]
